@@ -56,6 +56,7 @@ type Prog struct {
 	privFa            map[string]int
 	StableTypes       []string
 	muOwner           map[string]muOwnerInfo
+	capImm            map[*ssa.FreeVar]bool
 	ContractFilesUsed []string
 	MirrorUsed        []string
 }
